@@ -10,15 +10,19 @@ from gv import core, families, formats, gen, monitors
 
 ID = "C13"
 LEVEL = "exploration"
-RULE = ("for every generated document pair of one input type all 288 cells {8 output formats} x {diff,-e,-d} x {plain,--color,--html} x "
-        "{-,-j} x {equal,different} are enumerated; 8 input types (json, json5, yaml, csv, xml, html, plist, pickle); non-trivial = "
+RULE = ("for every generated document pair of one input type all 432 cells {8 output formats} x {diff,-e,-d} x {plain,--color,--html} x "
+        "{-,-j,a --match-if/--match-unless rule whose evaluation fails on some nodes} x {equal,different} are enumerated; 8 input types (json, json5, yaml, csv, xml, html, plist, pickle); non-trivial = "
         "the documents differ; distinct = distinct (input type, pair, cell)")
 ASSUMPTIONS = ["what the output looks like is not judged, only that rendering completes (main() returns 0 or 1, no traceback)"]
-MINIMUMS = {"quick": {"cells_run": 5000, "cells_with_status_output_and_real_fds": 2000, "cells_on_a_terminal": 1000},
+MINIMUMS = {"quick": {"cells_with_a_matching_rule": 2000, "cells_run": 5000, "cells_with_status_output_and_real_fds": 2000, "cells_on_a_terminal": 1000},
             "thorough": {"cells_run": 60000, "cells_with_status_output_and_real_fds": 25000, "cells_on_a_terminal": 12000}}
 MODES = [[], ["-e"], ["-d"]]
 LOOKS = [[], ["--color"], ["--html"]]
-COND = [[], ["-j"]]
+COND = [[], ["-j"], ["rule"]]
+# matching rules whose evaluation fails on some nodes (empty strings / lists, non-containers, division by a zero length): the user's
+# expression is evaluated on every pair of nodes a comparison looks at, and whatever it raises there must not end the run
+RULES = [["--match-unless", "from[0] == '#'"], ["--match-if", "from[0] == to[0]"], ["-u", "1 / len(from) > 1"],
+         ["-m", "to['id'] == from['id']"], ["-u", "from.nosuch == 2"], ["-m", "int(from) < int(to)"], ["-u", "from[-1] != to[-1]"]]
 
 
 def plan(tier, seed):
@@ -59,7 +63,12 @@ def check(case, ctx):
     # ... and a quarter on (pseudo-)terminals, where isatty() is true: colour on by default, tqdm draws its bars
     h = core.case_hash([case["type"], case["fmt"], case["mode"], case["look"], case["cond"], case["same"], repr(case["a"])]) % 4
     status_on, tty = h in (0, 2, 3), h == 3
-    argv = ([] if status_on else ["--no-status"]) + ["--format", case["fmt"]] + case["mode"] + case["look"] + case["cond"] + [pa, pb]
+    cond = case["cond"]
+    if cond == ["rule"]:
+        cond = RULES[core.case_hash([case["fmt"], case["mode"], case["look"], repr(case["a"])]) % len(RULES)]
+        if ctx is not None:
+            ctx.count("cells_with_a_matching_rule")
+    argv = ([] if status_on else ["--no-status"]) + ["--format", case["fmt"]] + case["mode"] + case["look"] + cond + [pa, pb]
     res = monitors.run_main(argv, real_files=status_on, tty=tty)
     if ctx is not None:
         ctx.count("cells_on_a_terminal" if tty else ("cells_with_status_output_and_real_fds" if status_on else "cells_no_status_in_memory"))
@@ -103,7 +112,7 @@ def classify(case, diag):
 
 def coverage_extra(counters, tier):
     return {"exhaustive": True,
-            "exhaustive_subspaces": "all 288 cells (8 formats x 3 modes x 3 looks x 2 layouts x equal/different) for every document pair "
+            "exhaustive_subspaces": "all 432 cells (8 formats x 3 modes x 3 looks x {-, -j, matching rule} x equal/different) for every document pair "
                                     "of each of the 8 input types",
             "cells_per_input_type": {k[3:]: v for k, v in counters.items() if k.startswith("in:")}}
 
